@@ -108,6 +108,9 @@ type Case struct {
 	// LateDebug: the slog handler refuses DEBUG records while the middleware and the router are being built and accepts every
 	// level from then on (a slog.LevelVar lowered at run time): which records a handler accepts is its answer at logging time.
 	LateDebug bool `json:"late_debug,omitempty"`
+	// Mounted: the handler does not answer itself but enters a second router with its own c.Writer() and request (a mounted
+	// sub-router); the script runs in that router's handler. The record of the outer Logger carries what was sent all the same.
+	Mounted bool `json:"mounted,omitempty"`
 	Global     ResolverCfg `json:"global_resolver"`
 	Route      ResolverCfg `json:"route_resolver"`
 	Method     string      `json:"method"`
@@ -422,6 +425,13 @@ func serve(c *Case, withLogger bool) (*run, error) {
 			fc.Writer().WriteHeader(http.StatusFound)
 			return
 		}
+		if c.Mounted {
+			inner, err := fox.New(fox.WithNoRouteHandler(func(ic fox.Context) { r.play(ic, c.Script) }))
+			if err == nil {
+				inner.ServeHTTP(fc.Writer(), fc.Request())
+				return
+			}
+		}
 		r.play(fc, c.Script)
 	}
 	probe := func(next fox.HandlerFunc) fox.HandlerFunc {
@@ -688,6 +698,9 @@ func check(c *Case, count bool) error {
 		stats.Class("install:" + c.Install)
 		if c.LateDebug {
 			stats.Class("slog-handler-accepts-debug-only-after-construction")
+		}
+		if c.Mounted && c.Beh != "default" {
+			stats.Class("script-runs-in-a-second-router-entered-with-c.Writer()")
 		}
 		stats.Class("resolver-effective:" + eff.Mode)
 		stats.Class("resolver-config:global=" + c.Global.Mode + ",route=" + c.Route.Mode)
@@ -1067,6 +1080,7 @@ func genCase(t *rapid.T) *Case {
 	c.Prior = gen.Chance(t, 1, 2, "prior")
 	c.SwapWriter = gen.Chance(t, 1, 5, "swapwriter")
 	c.LateDebug = gen.Chance(t, 1, 4, "latedebug")
+	c.Mounted = gen.Chance(t, 1, 5, "mounted")
 	gi := gen.U(t, len(ipPool), "globalIP")
 	ri := (gi + 1 + gen.U(t, len(ipPool)-1, "routeIP")) % len(ipPool)
 	c.Global = genResolver(t, []string{"none", "none", "nil", "ok", "ok", "ok", "fail", "fail"}, gi, "globalResolver")
